@@ -164,6 +164,13 @@ def run(tier):
         r_.shuffle(reqs)
         keep = [x for x in reqs if len(x["req"]) < 14] + reqs[:2500]
         reqs = keep
+    # TCP messages shorter than their length prefix says (the client stops sending and half-closes): every short body
+    # length around the ID (0, 1, 2, 3 octets) and the header (11, 12), against several announced lengths
+    whole = q_full = list(bytes.fromhex("abcd01000001000000000000") + b"\x03www\x03lan\x00\x00\x01\x00\x01")
+    for n in (0, 1, 2, 3, 11, 12, 13, len(whole) - 1):
+        for declared in (2, 3, 12, 40, 400, 65535):
+            if declared > n:
+                reqs.append({"req": whole[:n], "transport": "tcp", "declared": declared})
     v.notes["gen_messages"] = len(reqs)
     # plus: the large answers over both transports
     def q(name, t):
